@@ -1138,6 +1138,11 @@ func writeConfigFile(m proto.Message, form string) (string, bool) {
 		b, err = prototext.MarshalOptions{Multiline: fileSeq%2 == 0}.Marshal(m)
 	case "binary":
 		b, err = proto.Marshal(m)
+	case "text-zeros":
+		var ok bool
+		if b, ok = textWithZeros(m); !ok {
+			return "", false
+		}
 	case "garbage":
 		b = []byte{0xff, 0xfe, 0x00, 0x07, '{', '{', 0x80}
 	case "empty":
@@ -1512,6 +1517,48 @@ func main() {
 			Note:   fmt.Sprintf("MultiLogConfigFromFile form=%s load=%s validate=%s clause=%q round_trip=%v tree_ids=%s", form, load, obs, wf, roundTrip, treeIDs(cs)),
 			Tags:   append([]string{"file:multi:" + form, "file:multi:" + obs}, tags...)})
 	}
+	fileSingle := func(cs []*configpb.LogConfig, form string, tags []string) {
+		set := &configpb.LogConfigSet{Config: cs}
+		path, ok := writeConfigFile(set, form)
+		if !ok {
+			return
+		}
+		parsed := "None"
+		if form == "text" || form == "binary" || form == "text-zeros" || form == "empty" {
+			if form == "empty" {
+				cs = nil
+			}
+			parsed = lib.Some(coqLCs(cs))
+		}
+		my, pg := connTables(cs)
+		var got []*configpb.LogConfig
+		load := observe(func() error { var err error; got, err = ctfe.LogConfigFromFile(path); return err })
+		obs, obs2 := load, load
+		roundTrip := true
+		if load == accept {
+			roundTrip = proto.Equal(&configpb.LogConfigSet{Config: got}, &configpb.LogConfigSet{Config: cs})
+			obs = observe(func() error { return ctfe.ValidateLogConfigs(got) })
+			obs2 = observe(func() error {
+				_, err := ctfe.ValidateLogMultiConfig(ctfe.ToMultiLogConfig(cloneConfigs(got), "spec"))
+				return err
+			})
+		}
+		os.Remove(path)
+		wf := wfConfigs(cs)
+		if len(cs) == 0 || form == "garbage" {
+			wf = "file-unusable"
+		}
+		wf2 := wf
+		if wf == "dup-tree-id" { // ids need only differ per backend; ToMultiLogConfig puts every log on one backend
+			wf2 = "dup-tree-id-in-backend"
+		}
+		w.Add(lib.Case{Coq: fmt.Sprintf("CFileSingle %s \"spec\" %s %s %s %s", parsed, my, pg, obs, obs2),
+			Input:  map[string]interface{}{"kind": "LogConfigFromFile", "form": form, "config": protoJSON(set)},
+			Impl:   map[string]interface{}{"load": load, "validate_configs": obs, "validate_as_multi": obs2, "round_trip": roundTrip},
+			PropOK: roundTrip && verdict(obs, wf) && verdict(obs2, wf2),
+			Note:   fmt.Sprintf("LogConfigFromFile form=%s load=%s configs=%s as_multi=%s clause=%q round_trip=%v", form, load, obs, obs2, wf, roundTrip),
+			Tags:   append([]string{"file:single:" + form, "file:single:" + obs}, tags...)})
+	}
 	// absent sub-messages, explicitly
 	goodLog := func() *configpb.LogConfig { seq++; return baseConfig(r, "log", seq) }
 	be1 := &configpb.LogBackendSet{Backend: []*configpb.LogBackend{{Name: "be0", BackendSpec: "s0"}}}
@@ -1534,6 +1581,103 @@ func main() {
 		backends(g.m.Backends, "multi-grid:backends")
 		configs(cloneConfigs(g.m.LogConfigs.Config), tags)
 		fileMulti(g.m, []string{"text", "binary"}[gi%2], tags)
+	}
+
+	// merge delays: pairs (maximum, expected) with either side absent (zero), negative, equal, off by one,
+	// at the ends of int32 - on every kind of valid log, in every form a configuration can take.  The
+	// expected verdict comes from the two numbers alone (delayPair.ordered); everything else is valid.
+	{
+		delayLog := func(kind string, p delayPair) *configpb.LogConfig {
+			seq++
+			c := baseConfig(r, kind, 20000+seq)
+			p.apply(c)
+			// the grid must not be masked by another clause: with a valid base the hand-written reference
+			// and the pair's own verdict have to coincide
+			if got := wfLog(abstract(c)); (got == "") != p.ordered() || (got != "" && got != "merge-delays") {
+				panic(fmt.Sprintf("c15: merge-delay grid (%d,%d) on %s: reference says %q", p.max, p.exp, kind, got))
+			}
+			return c
+		}
+		twoBackends := func() *configpb.LogBackendSet {
+			return &configpb.LogBackendSet{Backend: []*configpb.LogBackend{{Name: "be0", BackendSpec: "s0"}, {Name: "be1", BackendSpec: "s1"}}}
+		}
+		for pi, p := range coreDelayPairs() {
+			tags := []string{"delay-grid", "delay-grid:" + p.class()}
+			// in memory, on every kind of log
+			for ki, kind := range delayKinds {
+				singleOpt(delayLog(kind, p), append([]string{"delay-grid:kind=" + kind}, tags...), p.ordered() && (pi+ki)%9 == 0)
+			}
+			kind := func(j int) string { return delayKinds[(pi+j)%len(delayKinds)] }
+			// a set of configurations: alone, and first / last among valid logs
+			configs([]*configpb.LogConfig{delayLog(kind(0), p)}, append([]string{"delay-grid:form=configs-1"}, tags...))
+			if pi%2 == 0 {
+				configs([]*configpb.LogConfig{delayLog(kind(1), p), goodLog()}, append([]string{"delay-grid:form=configs-first"}, tags...))
+			} else {
+				configs([]*configpb.LogConfig{goodLog(), goodLog(), delayLog(kind(1), p)}, append([]string{"delay-grid:form=configs-last"}, tags...))
+			}
+			// multi-backend configuration: the log on the second backend, after a valid one on the first
+			{
+				a, b := goodLog(), delayLog(kind(2), p)
+				b.LogBackendName = "be1"
+				if pi%3 == 0 {
+					a, b = b, a
+				}
+				multi(&configpb.LogMultiConfig{Backends: twoBackends(), LogConfigs: &configpb.LogConfigSet{Config: []*configpb.LogConfig{a, b}}},
+					append([]string{"delay-grid:form=multi"}, tags...))
+			}
+			multi(ctfe.ToMultiLogConfig([]*configpb.LogConfig{delayLog(kind(3), p)}, "spec"), append([]string{"delay-grid:form=to-multi"}, tags...))
+			// files: text, binary and hand-written text with the zero fields spelled out
+			for fi, form := range []string{"text", "binary", "text-zeros"} {
+				cs := []*configpb.LogConfig{delayLog(kind(4+fi), p)}
+				if (pi+fi)%2 == 0 {
+					cs = append([]*configpb.LogConfig{goodLog()}, cs...)
+				}
+				fileSingle(cs, form, append([]string{"delay-grid:form=file-single"}, tags...))
+				a, b := goodLog(), delayLog(kind(5+fi), p)
+				b.LogBackendName = "be1"
+				fileMulti(&configpb.LogMultiConfig{Backends: twoBackends(), LogConfigs: &configpb.LogConfigSet{Config: []*configpb.LogConfig{a, b}}},
+					form, append([]string{"delay-grid:form=file-multi"}, tags...))
+			}
+		}
+		for pi, p := range wideDelayPairs() {
+			singleOpt(delayLog(delayKinds[pi%len(delayKinds)], p), []string{"delay-grid", "delay-grid:wide", "delay-grid:" + p.class()}, false)
+		}
+
+		// NotAfter window: (start, limit) equal, one nanosecond / one second apart either way, same second with
+		// different nanos, ends of the valid range, either side absent; verdict from the two pairs alone
+		windowLog := func(kind string, p windowPair) *configpb.LogConfig {
+			seq++
+			c := baseConfig(r, kind, 20000+seq)
+			c.NotAfterStart, c.NotAfterLimit = nil, nil
+			if p.start != nil {
+				c.NotAfterStart = tsPB(*p.start)
+			}
+			if p.limit != nil {
+				c.NotAfterLimit = tsPB(*p.limit)
+			}
+			if got := wfLog(abstract(c)); (got == "") != p.ordered() || (got != "" && got != "window-inverted") {
+				panic(fmt.Sprintf("c15: window grid %s on %s: reference says %q", p, kind, got))
+			}
+			return c
+		}
+		wkinds := []string{"log", "mirror", "readonly", "frozen", "windowed"}
+		for pi, p := range windowPairs() {
+			tags := []string{"window-grid", "window-grid:" + p.what, fmt.Sprintf("window-grid:ordered=%v", p.ordered())}
+			kind := func(j int) string { return wkinds[(pi+j)%len(wkinds)] }
+			singleOpt(windowLog(kind(0), p), tags, false)
+			singleOpt(windowLog(kind(1), p), tags, false)
+			configs([]*configpb.LogConfig{goodLog(), windowLog(kind(2), p)}, tags)
+			b := windowLog(kind(3), p)
+			b.LogBackendName = "be1"
+			m := &configpb.LogMultiConfig{Backends: twoBackends(), LogConfigs: &configpb.LogConfigSet{Config: []*configpb.LogConfig{goodLog(), b}}}
+			form := []string{"text", "binary", "text-zeros"}[pi%3]
+			if pi%2 == 0 {
+				multi(m, tags)
+				fileSingle([]*configpb.LogConfig{windowLog(kind(4), p)}, form, tags)
+			} else {
+				fileMulti(m, form, tags)
+			}
+		}
 	}
 
 	for i := 0; i < n; i++ {
@@ -1564,46 +1708,7 @@ func main() {
 		case 5: // single-backend file: LogConfigFromFile -> ValidateLogConfigs / ToMultiLogConfig -> ValidateLogMultiConfig
 			cs, tags := pickSet(r, &seq)
 			form := []string{"text", "binary", "text", "binary", "garbage", "empty"}[r.Intn(6)]
-			set := &configpb.LogConfigSet{Config: cs}
-			path, ok := writeConfigFile(set, form)
-			if !ok {
-				continue
-			}
-			parsed := "None"
-			if form == "text" || form == "binary" || form == "empty" {
-				if form == "empty" {
-					cs = nil
-				}
-				parsed = lib.Some(coqLCs(cs))
-			}
-			my, pg := connTables(cs)
-			var got []*configpb.LogConfig
-			load := observe(func() error { var err error; got, err = ctfe.LogConfigFromFile(path); return err })
-			obs, obs2 := load, load
-			roundTrip := true
-			if load == accept {
-				roundTrip = proto.Equal(&configpb.LogConfigSet{Config: got}, &configpb.LogConfigSet{Config: cs})
-				obs = observe(func() error { return ctfe.ValidateLogConfigs(got) })
-				obs2 = observe(func() error {
-					_, err := ctfe.ValidateLogMultiConfig(ctfe.ToMultiLogConfig(cloneConfigs(got), "spec"))
-					return err
-				})
-			}
-			os.Remove(path)
-			wf := wfConfigs(cs)
-			if len(cs) == 0 || form == "garbage" {
-				wf = "file-unusable"
-			}
-			wf2 := wf
-			if wf == "dup-tree-id" { // ids need only differ per backend; ToMultiLogConfig puts every log on one backend
-				wf2 = "dup-tree-id-in-backend"
-			}
-			w.Add(lib.Case{Coq: fmt.Sprintf("CFileSingle %s \"spec\" %s %s %s %s", parsed, my, pg, obs, obs2),
-				Input:  map[string]interface{}{"kind": "LogConfigFromFile", "form": form, "config": protoJSON(set)},
-				Impl:   map[string]interface{}{"load": load, "validate_configs": obs, "validate_as_multi": obs2, "round_trip": roundTrip},
-				PropOK: roundTrip && verdict(obs, wf) && verdict(obs2, wf2),
-				Note:   fmt.Sprintf("LogConfigFromFile form=%s load=%s configs=%s as_multi=%s clause=%q round_trip=%v", form, load, obs, obs2, wf, roundTrip),
-				Tags:   append([]string{"file:single:" + form, "file:single:" + obs}, tags...)})
+			fileSingle(cs, form, tags)
 		case 6: // multi-backend file
 			cs, tags := pickSet(r, &seq)
 			bs, btag := pickBackends(r)
